@@ -238,6 +238,11 @@ def main():
     for key, rs, _ in TABLE:
         out += f"        \"{key}\" => Some(sdecode_report::<{rs}>(b)),\n"
     out += "        _ => None\n    }\n}\n"
+    out += "/// C20: typed deserialisation (and re-serialisation through the harness' sink) in whatever configuration this binary is.\n"
+    out += "pub fn sde_named(name: &str, b: &[u8], ser: bool) -> Option<Value> {\n    match name {\n"
+    for key, rs, _ in TABLE:
+        out += f"        \"{key}\" => Some(crate::c20::sde::<{rs}>(b, ser)),\n"
+    out += "        _ => None\n    }\n}\n"
     out += "pub fn exercise_all(rng: &mut StdRng, sink: &mut crate::gen::Sink, n: usize, want: &str) {\n"
     for key, rs, _ in TABLE:
         out += f"    exercise::<{rs}>(\"{key}\", rng, sink, n, want);\n"
